@@ -29,6 +29,9 @@ class Gen:
         self.k = 0
         self.indent, self.comment, self.continued = STYLES[p.choose(len(STYLES), "control_line_style")]
         self.simple = False
+        # `loop`: the loop context (default), or an ordinary name when the template is compiled with enable_loop=False
+        # (unless <%page enable_loop="True"/> turns it on again)
+        self.loop_mode = ["enabled", "disabled", "disabled-then-page-enables"][p.choose(3, "enable_loop")]
         self.fors = []              # enumerate counters of the enclosing `for` statements, innermost last
         self.nested_for = {0: 1, 1: 2}.get(depth, 2)      # budget of directly nested loops (loop.parent chains)
 
@@ -122,6 +125,9 @@ def _for_loop(self, d, ind, k=None, inner=False):
         self.fors.pop()
     extra = ["", "${loop.index}\n", "${loop.parent.index}.${loop.index}\n"][use]
     pyx = [[], [i2 + "out.append(str(n%d))" % k], [i2 + "out.append(str(n%s) + '.' + str(n%d))" % (parent, k)]][use]
+    if self.loop_mode == "disabled" and use:
+        # with enable_loop=False `loop` is whatever the context holds under that name
+        extra, pyx = "${loop}\n", [i2 + "out.append('ordinary-loop')"]
     tmpl = self.ctl("for i%d in %s:" % (k, it)) + extra + t1 + self.ctl("endfor")
     py = [ind + "for n%d, i%d in enumerate(%s):" % (k, k, it)] + pyx + p1
     return tmpl, py
@@ -195,12 +201,21 @@ def h_grammar(depth):
         if p.choose(2, "second_statement"):
             # a following loop that uses `loop`: the state left behind by the first statement must not leak into it
             k = g.fresh()
-            tmpl += g.ctl("for j%d in r(%d):" % (k, k)) + "${loop.index}\n" + g.ctl("endfor")
-            py += ["for m%d, j%d in enumerate(r(%d)):" % (k, k, k), "    out.append(str(m%d))" % k]
+            if g.loop_mode == "disabled":
+                tmpl += g.ctl("for j%d in r(%d):" % (k, k)) + "${loop}\n" + g.ctl("endfor")
+                py += ["for m%d, j%d in enumerate(r(%d)):" % (k, k, k), "    out.append('ordinary-loop')"]
+            else:
+                tmpl += g.ctl("for j%d in r(%d):" % (k, k)) + "${loop.index}\n" + g.ctl("endfor")
+                py += ["for m%d, j%d in enumerate(r(%d)):" % (k, k, k), "    out.append(str(m%d))" % k]
+        if g.loop_mode == "disabled-then-page-enables":
+            tmpl = '<%page enable_loop="True"/>\n' + tmpl
         fns, reset, flags = helpers(p)
         out = exc = None
         try:
-            out = TP.Template(tmpl).render(**fns)
+            if g.loop_mode == "enabled":
+                out = TP.Template(tmpl).render(**fns)
+            else:
+                out = TP.Template(tmpl, enable_loop=False).render(**dict(fns, **({"loop": "ordinary-loop"} if g.loop_mode == "disabled" else {})))
         except Exception as ex:
             exc = ex
         ev = reset()
@@ -211,7 +226,7 @@ def h_grammar(depth):
             exec(compile("\n".join(py) + "\n", "<reference>", "exec"), ns)
         except Exception as ex:
             ref_exc = ex
-        return dict(tmpl=tmpl, py=py, out=out, exc=exc, ref="".join(ns["out"]), ref_exc=ref_exc, ev=ev, ref_ev=reset(),
+        return dict(loop_mode=g.loop_mode, tmpl=tmpl, py=py, out=out, exc=exc, ref="".join(ns["out"]), ref_exc=ref_exc, ev=ev, ref_ev=reset(),
                     flags={k: bool(v) for k, v in flags.items()})
     return h
 
@@ -223,7 +238,7 @@ def on_grammar(p, r, exc, acc):
     acc.tags["asserted"] += 1
     acc.vcs += 1
     got = None if r["out"] is None else "".join(r["out"].split())
-    desc = dict(template=r["tmpl"], python="\n".join(r["py"]), decisions=r["flags"])
+    desc = dict(template=r["tmpl"], python="\n".join(r["py"]), decisions=r["flags"], loop_mode=r["loop_mode"])
     if r["ref_exc"] is not None:
         acc.counts["reference raised (%s)" % type(r["ref_exc"]).__name__] += 1
         if r["exc"] is None or type(r["exc"]) is not type(r["ref_exc"]):
@@ -268,7 +283,10 @@ def e(k):
 fns = dict(c=lambda k: flag("cond%d" % k), r=lambda k: [0, 1] if flag("nonempty%d" % k) else [], g=g, s=lambda k: "ab" if flag("nonempty%d" % k) else "",
            w=w, boom=boom, cm=CM, e=e, Boom=Boom)
 try:
-    got = "".join(Template(CASE["template"]).render(**fns).split())
+    mode = CASE.get("loop_mode", "enabled")
+    print("enable_loop:", mode)
+    if mode == "enabled": got = "".join(Template(CASE["template"]).render(**fns).split())
+    else: got = "".join(Template(CASE["template"], enable_loop=False).render(**dict(fns, **({"loop": "ordinary-loop"} if mode == "disabled" else {}))).split())
 except Exception as e_:
     got = "raised %s: %s" % (type(e_).__name__, str(e_)[:100])
 got_ev = list(events); del events[:]
@@ -284,7 +302,7 @@ if bad is None and not want.startswith("raised") and got_ev != events: bad = "ev
 print("VIOLATED: " + bad if bad else "HOLDS")
 sys.exit(1 if bad else 0)
 """.replace("__CASE__", repr(i))
-    return (c["kind"], body, (i["template"], repr(sorted(i["decisions"].items()))))
+    return (c["kind"], body, (i["template"], i.get("loop_mode"), repr(sorted(i["decisions"].items()))))
 
 
 def run(check, tier):
